@@ -44,3 +44,5 @@ def run(ctx):
         foreignread.run(ctx, "C05")
         from .. import handleg       # (round 9) the GENERIC handle machine Sf.HandleG: whole histories on AIFF / CAF / W64 / AVR / IRCAM / PAF / HTK (+ RAW / AU / WAV) byte for byte incl. store dumps
         handleg.run(ctx, "C05", 150 if q else 3000)
+        from .. import seekmatrix    # (gapg) deterministic block-seek matrix: every block codec x container x channel count, read into block L, seek into the blocks around it
+        seekmatrix.run(ctx, "C05")
